@@ -10,6 +10,7 @@ import Statrs.Model.Empirical
 import Statrs.Model.SamplerDispatch
 import Statrs.Model.MVDispatch
 import Statrs.Model.RankDispatch
+import Statrs.Model.CatDispatch
 namespace Statrs.Model.Dispatch
 open Statrs Statrs.Driver Statrs.Gen
 
@@ -104,7 +105,7 @@ def empTable : List (String × (List Arg → String)) := [
     | _ => "bad-args")]
 
 def table : List (String × (List Arg → String)) :=
-  Statrs.Model.MVDispatch.mvTable ++ Statrs.Model.SamplerDispatch.sampleTable ++ Statrs.Model.RankDispatch.rankTable ++ empTable ++ orderTable ++ genTable ++
+  Statrs.Model.MVDispatch.mvTable ++ Statrs.Model.SamplerDispatch.sampleTable ++ Statrs.Model.RankDispatch.rankTable ++ Statrs.Model.CatDispatch.catTable ++ empTable ++ orderTable ++ genTable ++
   statEntries "min" (IterStatistics.min (α := Float)) ++
   statEntries "max" (IterStatistics.max (α := Float)) ++
   statEntries "abs_min" (IterStatistics.abs_min (α := Float)) ++
